@@ -46,9 +46,15 @@ pub enum Fault {
     AcceptErr { on_client: bool, n: u32 },
     /// QUIC cells: datagrams to the server's QUIC port - random bytes, or something shaped like a long-header Initial packet
     DgramToServer { bytes: Vec<u8>, n: u32 },
+    /// many connections to the server's port at once, each sending these bytes (a partial TLS hello, a partial upgrade,
+    /// nothing) and then held open: whatever budget the server gives handshakes in progress, stalled peers must not use it up
+    Flood { bytes: Vec<u8>, n: u32 },
     /// QUIC cells: a real QUIC client whose handshake cannot succeed: 0 = offers a foreign ALPN only, 1 = offers no ALPN,
     /// 2 = does not trust the server's certificate, 3 = goes away right after its first flight
     QuicBadHandshake { kind: u8 },
+    /// QUIC cells: a real QUIC client that keeps sending but never hears the server (its return path is a black hole):
+    /// its handshake stays in progress on the server until quinn gives it up
+    QuicStalledHandshake,
 }
 
 pub fn fault_name(f: &Fault) -> String {
@@ -57,9 +63,11 @@ pub fn fault_name(f: &Fault) -> String {
         Fault::StalledLocal { bytes } => format!("stalled-local-handshake-{}", if bytes.first() == Some(&5) { "socks5" } else { "http" }),
         Fault::RawToServer { bytes, hold } => format!("{}-to-server-{}", raw_kind(bytes), if *hold { "stalled" } else { "closed" }),
         Fault::BadTarget { fault } => format!("target-{fault}"),
+        Fault::Flood { bytes, .. } => format!("flood-of-stalled-{}-connections", raw_kind(bytes)),
         Fault::ResetFlow { by_app } => format!("reset-by-{}", if *by_app { "application" } else { "target" }),
         Fault::AcceptErr { on_client, .. } => format!("accept-emfile-{}", if *on_client { "client" } else { "server" }),
         Fault::QuicBadHandshake { kind } => format!("quic-handshake-{}", ["foreign-alpn", "no-alpn", "untrusted-certificate", "abandoned"][*kind as usize % 4]),
+        Fault::QuicStalledHandshake => "quic-handshake-stalled".to_owned(),
         Fault::DgramToServer { bytes, .. } => format!("{}-datagrams-to-quic-port", if bytes.first().is_some_and(|b| b & 0xc0 == 0xc0) { "initial-like" } else { "garbage" }),
     }
 }
@@ -77,6 +85,9 @@ fn raw_kind(b: &[u8]) -> &'static str {
 }
 
 pub fn gen_fault(g: &mut Gen, transport: Transport) -> Fault {
+    if transport == Transport::Quic && g.chance(15) {
+        return Fault::QuicStalledHandshake;
+    }
     if transport == Transport::Quic && g.chance(25) {
         return Fault::QuicBadHandshake { kind: g.below(4) as u8 };
     }
@@ -90,6 +101,15 @@ pub fn gen_fault(g: &mut Gen, transport: Transport) -> Fault {
             bytes[5] = 8;
         }
         return Fault::DgramToServer { bytes, n: g.range(1, 20) as u32 };
+    }
+    if transport != Transport::Quic && g.chance(8) {
+        let bytes = match (transport, g.below(3)) {
+            (Transport::Tls | Transport::Wss, 0 | 1) => vec![0x16, 0x03, 0x01, 0x02, 0x00, 0x01, 0x00, 0x01, 0xfc, 0x03, 0x03, 0x55],
+            (Transport::Ws, 0 | 1) => b"GET /ws HTTP/1.1\r\nHost: sim.test\r\n".to_vec(),
+            (_, 2) => Vec::new(),
+            _ => vec![0x05],
+        };
+        return Fault::Flood { bytes, n: g.range(17, 70) as u32 };
     }
     match g.below(12) {
         0 => Fault::ConnectClose { to_client: g.chance(50), n: g.range(1, 5) as u32 },
@@ -119,6 +139,12 @@ pub fn gen_fault(g: &mut Gen, transport: Transport) -> Fault {
         8 | 9 => Fault::ResetFlow { by_app: g.chance(50) },
         _ => Fault::AcceptErr { on_client: g.chance(50), n: g.range(1, 3) as u32 },
     }
+}
+
+pub fn gen_c09_hostile(seed: u64, thorough: bool) -> Plan {
+    let mut p = gen_c08(seed, thorough);
+    p.property = "C09".into();
+    p
 }
 
 pub fn gen_c08(seed: u64, thorough: bool) -> Plan {
@@ -174,6 +200,15 @@ async fn inject(ix: usize, f: &Fault, held: &mut Held) {
                 }
             }
         }
+        Fault::Flood { bytes, n } => {
+            for _ in 0..*n {
+                if let Ok(mut s) = TcpStream::connect(server_addr()).await {
+                    let _ = s.write_all(bytes).await;
+                    held._conns.push(s);
+                }
+            }
+            tokio::time::sleep(Duration::from_millis(50)).await;
+        }
         Fault::BadTarget { fault } => {
             let mut g = Gen::new(ix as u64, 88);
             let mut fl = gen_flow(&mut g, 100 + ix, LocalHs::Socks5Domain, Ending::None, 500);
@@ -209,6 +244,13 @@ async fn inject(ix: usize, f: &Fault, held: &mut Held) {
         }
         Fault::QuicBadHandshake { kind } => {
             quic_bad_handshake(*kind).await;
+        }
+        Fault::QuicStalledHandshake => {
+            let port = 47_000 + ix as u16;
+            world::with(|w| w.udp_drop_to_ports.push(port));
+            held._tasks.push(spawn_scoped(quic_stalled_handshake(port)));
+            // its first flight has reached the server
+            tokio::time::sleep(Duration::from_millis(300)).await;
         }
         Fault::DgramToServer { bytes, n } => {
             if let Ok(s) = octo_squirrel::verif::net::UdpSocket::bind(SocketAddr::new(IpAddr::V4(Ipv4Addr::LOCALHOST), 0)).await {
@@ -269,6 +311,9 @@ async fn canary(ix: usize) -> Result<u64, String> {
 }
 
 pub fn execute_c08(plan: &Plan) -> Outcome {
+    // (the same scenario serves C09 - "each flow's result is what it would have been alone": alone the fresh flow is served,
+    // promptly; next to misbehaving peers it must be too)
+    let prop = plan.property.as_str();
     let faults: Vec<Fault> = serde_json::from_value(plan.extra["faults"].clone()).unwrap_or_default();
     let cell = plan.config.label();
     let out = rt::run_sim(plan.seed, plan.net_seed, plan.knobs.to_knobs(), || async {
@@ -298,22 +343,29 @@ pub fn execute_c08(plan: &Plan) -> Outcome {
     let class = if names.len() == 1 { names[0].clone() } else { let mut n = names.clone(); n.sort(); n.dedup(); n.join("+") };
     let mut v = Vec::new();
     if let Some(e) = startup_err {
-        v.push(Violation::new("C08", format!("C08/startup/{cell}"), e));
+        v.push(Violation::new(prop, format!("{prop}/startup/{cell}"), e));
     } else if let Some(Err(e)) = before {
-        v.push(Violation::new("C08", format!("C08/canary-before-faults/{cell}"), e));
+        v.push(Violation::new(prop, format!("{prop}/canary-before-faults/{cell}"), e));
     } else {
-        if let Some(Err(e)) = after {
-            v.push(Violation::new("C08", format!("C08/canary-failed/{cell}/{class}"), format!("after faults {names:?}: {e}; listeners bound (client, server) = {bound:?}, mains finished = {finished:?}")));
+        if let Some(Err(e)) = &after {
+            v.push(Violation::new(prop, format!("{prop}/canary-failed/{cell}/{class}"), format!("after faults {names:?}: {e}; listeners bound (client, server) = {bound:?}, mains finished = {finished:?}")));
+        }
+        // other peers' stalled or failing handshakes are none of a fresh flow's business: it is served as promptly as before
+        // (nothing in the catalogue gives the service a reason to make a well-behaved newcomer wait for tens of seconds)
+        if let (Some(Ok(b)), Some(Ok(a))) = (&before, &after) {
+            if *a > *b + 15_000_000_000 {
+                v.push(Violation::new(prop, format!("{prop}/canary-delayed/{cell}/{class}"), format!("after faults {names:?}: a fresh flow was served only after {:.1} simulated s (before the faults: {:.3} s) - it had to wait for somebody else's connection", *a as f64 / 1e9, *b as f64 / 1e9)));
+            }
         }
         if !bound.0 || !bound.1 {
-            v.push(Violation::new("C08", format!("C08/listener-gone/{cell}/{class}"), format!("after faults {names:?}: client listener bound = {}, server listener bound = {}", bound.0, bound.1)));
+            v.push(Violation::new(prop, format!("{prop}/listener-gone/{cell}/{class}"), format!("after faults {names:?}: client listener bound = {}, server listener bound = {}", bound.0, bound.1)));
         }
         if finished.0 || finished.1 {
-            v.push(Violation::new("C08", format!("C08/main-returned/{cell}/{class}"), format!("after faults {names:?}: client main returned = {}, server main returned = {}", finished.0, finished.1)));
+            v.push(Violation::new(prop, format!("{prop}/main-returned/{cell}/{class}"), format!("after faults {names:?}: client main returned = {}, server main returned = {}", finished.0, finished.1)));
         }
     }
     for p in &out.panics {
-        v.push(Violation::new("C08", format!("C08/panic/{cell}/{}", p.frame), format!("after faults {names:?}: panic in node {}: {} at {}", p.node, p.message, p.location)));
+        v.push(Violation::new(prop, format!("{prop}/panic/{cell}/{}", p.frame), format!("after faults {names:?}: panic in node {}: {} at {}", p.node, p.message, p.location)));
     }
     let mut probes = BTreeMap::new();
     for n in &names {
@@ -339,6 +391,27 @@ pub fn execute_c08(plan: &Plan) -> Outcome {
         extra_evaluations: 0,
         extra_cases: Vec::new(),
     }
+}
+
+/// A real quinn client, correct in every respect, whose local port never receives anything: it retransmits its first
+/// flight, the server answers into the void.
+async fn quic_stalled_handshake(port: u16) {
+    use std::sync::Arc;
+    use tokio_rustls::rustls;
+    use tokio_rustls::rustls::pki_types::CertificateDer;
+    use tokio_rustls::rustls::pki_types::pem::PemObject;
+    let mut roots = rustls::RootCertStore::empty();
+    if let Ok(cert) = CertificateDer::from_pem_file(CERT) {
+        let _ = roots.add(cert);
+    }
+    let mut tls = rustls::ClientConfig::builder().with_root_certificates(roots).with_no_client_auth();
+    tls.alpn_protocols = vec![b"http/1.1".to_vec()];
+    let Ok(crypto) = quinn::crypto::rustls::QuicClientConfig::try_from(tls) else { return };
+    let Ok(mut ep) = octo_squirrel::verif::quic::client_endpoint(SocketAddr::new(IpAddr::V4(Ipv4Addr::UNSPECIFIED), port)) else { return };
+    ep.set_default_client_config(quinn::ClientConfig::new(Arc::new(crypto)));
+    let Ok(connecting) = ep.connect(server_addr(), "sim.test") else { return };
+    let _ = tokio::time::timeout(Duration::from_secs(120), connecting).await;
+    std::future::pending::<()>().await;
 }
 
 /// A real quinn client on the simulated datagram socket whose handshake with the server cannot succeed.
